@@ -763,9 +763,13 @@ class Walker:
             nm = st.target.id
             cur = self.name(ast.Name(id=nm, ctx=ast.Load()))
             sc, sv = T.strip(cur), T.strip(v)
-            if nm in self.acc_ctx and op == "+" and sc[0] == "bag" and sv[0] == "bag":
+            if nm in self.acc_ctx and op == "+" and sc[0] == "bag" and (sv[0] == "bag" or (sv[0] == "call" and (len(sc) < 3 or sc[2] == "list"))):
+                # `xs += ys` on a list accumulator is `xs.extend(ys)`: the elements of a collection display, or all of another collection
                 g0, i0 = self.acc_ctx[nm]
-                new = tuple(("elem", e[1], self.guards[g0:] + e[2], self.iters[i0:] + e[3]) for e in sv[1])
+                if sv[0] == "bag":
+                    new = tuple(("elem", e[1], self.guards[g0:] + e[2], self.iters[i0:] + e[3]) for e in sv[1])
+                else:
+                    new = (("elem", ("star", v), self.guards[g0:], self.iters[i0:]),)
                 self.env[nm] = ("bag", sc[1] + new, sc[2])
                 self.emit("bind", ("bind", T.var(nm), self.env[nm]), st)
                 return
